@@ -4,15 +4,25 @@
 // Elements are non-negative ints e with key(e) = e/100 and payload(e) = e%100, so that WHICH of
 // several equal-keyed elements is returned can be observed.
 //
-//	L <mode> <as> <bs> | <z|s> <ints> m<0|1> a<0|1>
-//	    mode e: slice.LCS (==);  mode k: slice.LCSFunc with eq = equal keys
-//	    z = result is nil, s = non-nil;  m1 = an input slice was modified by the call;
-//	    a1 = overwriting the returned slice changed an input (aliasing)
-//	I <mode> <vs> | <ints> m<0|1> a<0|1>     LIS
-//	N <mode> <vs> | <ints> m<0|1> a<0|1>     LNDS
+//	L <mode> <as> <bs> [w<pre>,<spare>] | <z|s> <ints> m<0|1> a<0|1>
+//	    mode e: slice.LCS (==);  LCSFunc with: k equal keys;  c equal key/2 and m equal key%2
+//	    (equivalences coarser than key identity: the key parity resp. key/2 is payload too);
+//	    o key(a) <= key(b) (NOT symmetric: pins the argument order of eq and the swap);
+//	    p equal keys but never at key 2 (not reflexive, like == at NaN)
+//	    z = result is nil, s = non-nil
+//	I <mode> <vs> [w<pre>,<spare>] | <ints> m<0|1> a<0|1>     LIS
+//	N <mode> <vs> [w<pre>,<spare>] | <ints> m<0|1> a<0|1>     LNDS
 //	    mode n: slice.LIS / slice.LNDS (cmp.Compare on the whole int)
-//	    mode k: ...Func with cmp = compare keys;  mode r: compare keys, reversed;
-//	    mode d: cmp = key(a)-key(b) (results other than -1/0/1)
+//	    ...Func with: k compare keys;  r keys reversed;  d key(a)-key(b);  t 3*(key(a)-key(b));
+//	    q 7*(key(b)-key(a)) (reversed, large magnitudes);  x math.MinInt / 0 / math.MaxInt;
+//	    c compare key/2 and m compare key%3 (coarse total preorders: distinct keys tie)
+//
+// Every input slice is a window backing[pre : pre+len : pre+len+spare] of a larger array whose
+// other cells hold guard values (default w0,0).  m1 = some cell of a backing array (the window, the
+// cells before it, or the spare capacity beyond len) differs after the call;  a1 = overwriting
+// the returned slice up to its capacity changed some cell of a backing array (aliasing; LIS/LNDS
+// return the input slice itself on an empty input, so a1 is expected exactly when that empty
+// window has spare capacity).
 //
 // A panic is recorded as "panic:<kind>", a call that does not return within the watchdog as "hang"
 // (after three hangs the remaining cases are recorded as "skipped-after-hangs", because every
@@ -21,7 +31,9 @@ package main
 
 import (
 	"cmp"
+	"math"
 	"slices"
+	"strconv"
 	"strings"
 	"time"
 
@@ -39,8 +51,67 @@ func cmpFor(mode string) func(a, b int) int {
 		return func(a, b int) int { return cmp.Compare(key(b), key(a)) }
 	case "d":
 		return func(a, b int) int { return key(a) - key(b) }
+	case "t":
+		return func(a, b int) int { return 3 * (key(a) - key(b)) }
+	case "q":
+		return func(a, b int) int { return 7 * (key(b) - key(a)) }
+	case "x":
+		return func(a, b int) int {
+			switch {
+			case key(a) < key(b):
+				return math.MinInt
+			case key(a) > key(b):
+				return math.MaxInt
+			}
+			return 0
+		}
+	case "c":
+		return func(a, b int) int { return key(a)/2 - key(b)/2 }
+	case "m":
+		return func(a, b int) int { return key(a)%3 - key(b)%3 }
 	}
-	return nil
+	panic("bad cmp mode " + mode)
+}
+
+func eqFor(mode string) func(a, b int) bool {
+	switch mode {
+	case "k":
+		return func(a, b int) bool { return key(a) == key(b) }
+	case "c":
+		return func(a, b int) bool { return key(a)/2 == key(b)/2 }
+	case "m":
+		return func(a, b int) bool { return key(a)%2 == key(b)%2 }
+	case "o":
+		return func(a, b int) bool { return key(a) <= key(b) }
+	case "p":
+		return func(a, b int) bool { return key(a) == key(b) && key(a) != 2 }
+	}
+	panic("bad eq mode " + mode)
+}
+
+// window: vs placed in a larger array with guard cells before it and spare capacity after it.
+type window struct{ backing, w []int }
+
+const guard = 770000
+
+func mkWindow(vs []int, pre, spare int) window {
+	b := make([]int, pre+len(vs)+spare)
+	for i := range b {
+		b[i] = guard + i
+	}
+	copy(b[pre:], vs)
+	return window{b, b[pre : pre+len(vs) : pre+len(vs)+spare]}
+}
+
+// parseWin reads the optional w<pre>,<spare> field.
+func parseWin(f []string, at int) (pre, spare int) {
+	if len(f) > at && strings.HasPrefix(f[at], "w") {
+		p := tr.UnInts(f[at][1:])
+		if len(p) == 2 {
+			return p[0], p[1]
+		}
+	}
+	return 0, 0
 }
 
 const poison = 999999
@@ -56,39 +127,34 @@ func exec(in string) string {
 	p := tr.Guard(2*time.Second, func() {
 		switch f[0] {
 		case "L":
-			as, bs := tr.UnInts(f[2]), tr.UnInts(f[3])
-			if as == nil {
-				as = []int{}
-			}
-			if bs == nil {
-				bs = []int{}
-			}
-			as0, bs0 := slices.Clone(as), slices.Clone(bs)
+			pre, spare := parseWin(f, 4)
+			wa, wb := mkWindow(tr.UnInts(f[2]), pre, spare), mkWindow(tr.UnInts(f[3]), spare, pre)
+			as, bs := wa.w, wb.w
+			as0, bs0 := slices.Clone(wa.backing), slices.Clone(wb.backing)
 			var res []int
 			if f[1] == "e" {
 				res = slice.LCS(as, bs)
 			} else {
-				res = slice.LCSFunc(as, bs, func(a, b int) bool { return key(a) == key(b) })
+				res = slice.LCSFunc(as, bs, eqFor(f[1]))
 			}
-			m := !slices.Equal(as, as0) || !slices.Equal(bs, bs0)
+			m := !slices.Equal(wa.backing, as0) || !slices.Equal(wb.backing, bs0)
 			shown := tr.Ints(res)
 			nl := "s"
 			if res == nil {
 				nl = "z"
 			}
-			as1, bs1 := slices.Clone(as), slices.Clone(bs)
+			as1, bs1 := slices.Clone(wa.backing), slices.Clone(wb.backing)
 			res = res[:cap(res)]
 			for i := range res {
 				res[i] = poison
 			}
-			a := !slices.Equal(as, as1) || !slices.Equal(bs, bs1)
+			a := !slices.Equal(wa.backing, as1) || !slices.Equal(wb.backing, bs1)
 			out = nl + " " + shown + " m" + tr.B(m) + " a" + tr.B(a)
 		case "I", "N":
-			vs := tr.UnInts(f[2])
-			if vs == nil {
-				vs = []int{}
-			}
-			vs0 := slices.Clone(vs)
+			pre, spare := parseWin(f, 3)
+			wv := mkWindow(tr.UnInts(f[2]), pre, spare)
+			vs := wv.w
+			vs0 := slices.Clone(wv.backing)
 			var res []int
 			switch {
 			case f[0] == "I" && f[1] == "n":
@@ -100,14 +166,14 @@ func exec(in string) string {
 			default:
 				res = slice.LNDSFunc(vs, cmpFor(f[1]))
 			}
-			m := !slices.Equal(vs, vs0)
+			m := !slices.Equal(wv.backing, vs0)
 			shown := tr.Ints(res)
-			vs1 := slices.Clone(vs)
+			vs1 := slices.Clone(wv.backing)
 			res = res[:cap(res)]
 			for i := range res {
 				res[i] = poison
 			}
-			a := !slices.Equal(vs, vs1)
+			a := !slices.Equal(wv.backing, vs1)
 			out = shown + " m" + tr.B(m) + " a" + tr.B(a)
 		default:
 			out = "?"
@@ -184,9 +250,33 @@ func lcsTags(a, b []int) (bool, []string) {
 	return nt, tags
 }
 
+// winField picks a window shape; n is a running counter so that the exhaustive scopes cycle
+// deterministically through the shapes.
+var winShapes = [][2]int{{0, 0}, {0, 3}, {2, 0}, {1, 2}, {0, 1}}
+
+func winField(n int) (string, []string) {
+	w := winShapes[n%len(winShapes)]
+	var tags []string
+	if w[0] > 0 {
+		tags = append(tags, "window-cells-before")
+	}
+	if w[1] > 0 {
+		tags = append(tags, "window-spare-capacity")
+	}
+	if w[0] == 0 && w[1] == 0 {
+		return "", tags
+	}
+	return " w" + strconv.Itoa(w[0]) + "," + strconv.Itoa(w[1]), tags
+}
+
+var emitted int
+
 func emitLCS(g *tr.G, mode string, a, b []int, ka, kb []int, extra ...string) {
 	nt, tags := lcsTags(ka, kb)
-	g.Emit("L "+mode+" "+tr.Ints(a)+" "+tr.Ints(b), nt, append(tags, extra...)...)
+	emitted++
+	wf, wt := winField(emitted)
+	tags = append(append(tags, wt...), "lcs-mode-"+mode)
+	g.Emit("L "+mode+" "+tr.Ints(a)+" "+tr.Ints(b)+wf, nt, append(tags, extra...)...)
 }
 
 func lisTags(keys []int) (bool, []string) {
@@ -216,8 +306,14 @@ func lisTags(keys []int) (bool, []string) {
 func emitLIS(g *tr.G, mode string, keys []int, vs []int, extra ...string) {
 	nt, tags := lisTags(keys)
 	tags = append(tags, extra...)
-	g.Emit("I "+mode+" "+tr.Ints(vs), nt, tags...)
-	g.Emit("N "+mode+" "+tr.Ints(vs), nt, tags...)
+	emitted++
+	wf, wt := winField(emitted)
+	tags = append(append(tags, wt...), "lis-mode-"+mode)
+	if len(vs) == 0 && wf != "" && !strings.HasSuffix(wf, ",0") {
+		tags = append(tags, "lis-empty-with-spare-capacity")
+	}
+	g.Emit("I "+mode+" "+tr.Ints(vs)+wf, nt, tags...)
+	g.Emit("N "+mode+" "+tr.Ints(vs)+wf, nt, tags...)
 }
 
 // randKeys: sequences with many ties: small alphabets, runs, nearly sorted stretches.
@@ -276,7 +372,7 @@ func mutate(r *tr.Rand, base []int, k int) []int {
 }
 
 func main() {
-	tr.Main("C12: LCS over every pair of lists of 3 symbols up to length 4 (quick) / 5 (thorough) with key-only equality and position payloads (which element is returned is observable) and with plain ==, pairs over 2 symbols to length 6 / 7, random pairs derived from a common base by edits (long common runs, alphabets of 2-5 symbols, lengths to 49); LIS and LNDS over every list of 4 symbols up to length 6 (quick) / 8 (thorough) under natural, reversed and difference-valued key comparison with position payloads, the cmp.Ordered wrappers, random lists with runs of equal keys, nearly sorted and nearly reversed (lengths to 60 / 99). Inputs are compared before/after each call and the returned slice is overwritten afterwards (m/a flags). A case is non-trivial when an input contains a repeated key; distinct = distinct input lines.",
+	tr.Main("C12: LCS over every pair of lists of 3 symbols up to length 4 (quick) / 5 (thorough) with key-only equality and position payloads (which element is returned is observable), the same pairs up to length 3 / 4 under two equivalences coarser than key identity, an asymmetric test (key(a) <= key(b): pins the argument order of eq) and a non-reflexive one (== at NaN), plain == over 2 symbols to length 6 / 7, random pairs derived from a common base by edits (long common runs, alphabets of 2-5 symbols, lengths to 49) under all six tests; LIS and LNDS over every list of 4 symbols up to length 6 (quick) / 8 (thorough) under natural, reversed and two coarse-preorder key comparisons (key/2, key%3: distinct keys tie, payloads tell them apart), and up to length 5 / 8 under difference-valued comparisons of several magnitudes (a-b, 3(a-b), 7(b-a), MinInt/MaxInt) and the cmp.Ordered wrappers, random lists with runs of equal keys, nearly sorted and nearly reversed (lengths to 60 / 99) under all ten comparisons. Every input slice is a window into a larger array (five shapes: cells before, spare capacity after); the whole backing arrays are compared before/after each call and again after the returned slice has been overwritten up to its capacity (m/a flags). A case is non-trivial when an input contains a repeated key; distinct = distinct input lines.",
 		exec, func(g *tr.G) {
 			if g.Prop != "C12" {
 				return
@@ -288,6 +384,12 @@ func main() {
 			for _, a := range lists3 {
 				for _, b := range lists3 {
 					emitLCS(g, "k", withPayload(a, 0), withPayload(b, 50), a, b, "lcs-exhaustive-3sym")
+					// the coarser, asymmetric and non-reflexive tests: a smaller scope in the quick tier
+					if g.Thorough() && len(a) <= 4 && len(b) <= 4 || len(a) <= 3 && len(b) <= 3 {
+						for _, mode := range []string{"c", "m", "o", "p"} {
+							emitLCS(g, mode, withPayload(a, 0), withPayload(b, 50), a, b, "lcs-exhaustive-3sym")
+						}
+					}
 				}
 			}
 			for _, a := range lists2 {
@@ -318,10 +420,11 @@ func main() {
 				if len(b) > 49 {
 					b = b[:49]
 				}
-				if g.R.Chance(1, 4) {
+				if g.R.Chance(1, 5) {
 					emitLCS(g, "e", plain(a), plain(b), a, b, "lcs-random")
 				} else {
-					emitLCS(g, "k", withPayload(a, 0), withPayload(b, 50), a, b, "lcs-random")
+					mode := tr.Pick(g.R, []string{"k", "k", "c", "m", "o", "p"})
+					emitLCS(g, mode, withPayload(a, 0), withPayload(b, 50), a, b, "lcs-random")
 				}
 			}
 			// ---- LIS / LNDS, exhaustive
@@ -329,15 +432,20 @@ func main() {
 				vs := withPayload(ks, 0)
 				emitLIS(g, "k", ks, vs, "lis-exhaustive")
 				emitLIS(g, "r", ks, vs, "lis-exhaustive")
+				emitLIS(g, "c", ks, vs, "lis-exhaustive")
+				emitLIS(g, "m", ks, vs, "lis-exhaustive")
 				if g.Thorough() || len(ks) <= 5 {
 					emitLIS(g, "d", ks, vs, "lis-exhaustive")
 					emitLIS(g, "n", ks, plain(ks), "lis-exhaustive")
+					emitLIS(g, "t", ks, vs, "lis-exhaustive")
+					emitLIS(g, "q", ks, vs, "lis-exhaustive")
+					emitLIS(g, "x", ks, vs, "lis-exhaustive")
 				}
 			})
 			// ---- LIS / LNDS, random
 			for i := 0; i < g.Scale(1500, 40000); i++ {
 				ks := randKeys(g.R, g.Scale(60, 99))
-				mode := tr.Pick(g.R, []string{"k", "k", "r", "d", "n"})
+				mode := tr.Pick(g.R, []string{"k", "k", "r", "d", "n", "t", "q", "x", "c", "m"})
 				if mode == "n" {
 					// whole-int comparison: payloads would break ties, so use plain keys half the time
 					if g.R.Bool() {
